@@ -434,7 +434,7 @@ impl Property for Rings {
     fn part(&self) -> &'static str { "rings-sched" }
     fn strategy(&self, _tier: Tier) -> BoxedStrategy<Case> { case_strategy(&RING_KINDS, &RING_CAPS, 4, 3, true) }
     fn decode(&self, u: &mut arbitrary::Unstructured<'_>) -> Option<Case> { decode_case(u, &RING_KINDS, &RING_CAPS, 4, 3, true) }
-    fn cases(&self, tier: Tier) -> u32 { match tier { Tier::Quick => 6_000, Tier::Thorough => 150_000 } }
+    fn cases(&self, tier: Tier) -> u32 { match tier { Tier::Quick => 20_000, Tier::Thorough => 300_000 } }
     fn run(&self, case: &Case) -> RunReport { report(case) }
     fn rule(&self) -> String {
         "generated: ring kind x capacity {2,4} x counter origin {0, just below 2^32} x prefill {0,1,cap-1,cap} x 2..4 threads of 1..3 put/get x schedule (sparse preemptions | PCT | random walk); \
@@ -454,7 +454,7 @@ impl Property for Standalone {
     fn part(&self) -> &'static str { "standalone-sched" }
     fn strategy(&self, _tier: Tier) -> BoxedStrategy<Case> { case_strategy(&SA_KINDS, &SA_CAPS, 4, 4, false) }
     fn decode(&self, u: &mut arbitrary::Unstructured<'_>) -> Option<Case> { decode_case(u, &SA_KINDS, &SA_CAPS, 4, 4, false) }
-    fn cases(&self, tier: Tier) -> u32 { match tier { Tier::Quick => 6_000, Tier::Thorough => 150_000 } }
+    fn cases(&self, tier: Tier) -> u32 { match tier { Tier::Quick => 20_000, Tier::Thorough => 300_000 } }
     fn run(&self, case: &Case) -> RunReport { report(case) }
     fn rule(&self) -> String {
         "generated: container kind (atomic-flag stack, atomic queue, full-sync queue, parking-lot stack) x capacity {2,4,8} x prefill {0,1,cap-1,cap} x 2..4 threads of 1..4 push/pop (enqueue/dequeue) x schedule; \
